@@ -114,7 +114,7 @@ func c17(c *Ctx) {
 	c.RunEvalCases()
 
 	// Select, AnyOf, aggregates over stepped keys
-	nRand := c.N(2500, 60000)
+	nRand := c.N(12000, 150000)
 	r := c.Rng
 	for it := 0; it < nRand; it++ {
 		n := r.Intn(maxLen + 1)
